@@ -783,9 +783,10 @@ def add_assoc_classes(rng, f, names):
             t = e.decl.target
             narrower = [t] + f.subtree(t)
             t2 = rng.choice(narrower)
-            nd = PropDecl(recase(rng, e.decl.name, 0.5), 'reference',
+            pname = recase(rng, e.decl.name, 0.3)
+            nd = PropDecl(pname, 'reference',
                           quals=[QualUse(Q_OVERRIDE, 'Override',
-                                         recase(rng, e.decl.name, 0.5))],
+                                         recase(rng, pname, 0.3))],
                           reference_class=recase(rng, f.classes[t2].name,
                                                  0.4))
             nd.target = t2
